@@ -134,6 +134,7 @@ def E(name, props, *edits):
 
 E("eq-stub-target-dead-branch", ["C06", "C02"], (RO, "            node.parent.currentPos if node.parent else node.idealPos", "            node.parent.currentPos if node.parent else (node.idealPos if node.layerIndex == 0 else node.currentPos)"))
 E("eq-no-explicit-cycle-test", ["C05"], (VP, "                if lb.isActiveDirectedPathBetween(v.right, v.left):", "                if False and lb.isActiveDirectedPathBetween(v.right, v.left):"))
+M("c05-stop-tolerance-loosened", ["C05"], (VP, "        while abs(lastcost - cost) > 0.0001:", "        while abs(lastcost - cost) > 0.5:"))
 M("c05-split-skips-update-of-block-positions", ["C05"], (VP, "    def split(self, inactive):\n        self.updateBlockPositions()\n", "    def split(self, inactive):\n"))
 E("eq-mostviolated-really-pops", ["C05", "C01"], (VP, "            l[deletePoint] = l[n - 1]\n            l = l[:-1]\n", "            l[deletePoint] = l[n - 1]\n            del l[-1]\n"))
 E("eq-copy-with-slices", ["C12", "C14"], (SC, "            list(self._domain),\n            list(self._range),", "            self._domain[:],\n            self._range[:],"))
